@@ -273,6 +273,8 @@ def _feedback_post(a, res):
     for gate in ("m_write_gate", "m_hold_gate"):
         ok.append(all(gate not in sinks for sinks in g._sinks.values()))
     ok += [module.optimization == "arithmetic_feedback", module.output_node_id == arith, module.write_gate_unused is True, module.hold_gate_unused is True]
+    # the enable constant of the replaced gates has no reader any more: it is remembered for removal (a bare integer has no combinator)
+    ok.append(module.unused_enable_id == ("enable_const" if sc["enable_ref"] else None))
     props = me.layout_plan.get_placement(arith).properties
     if sc["steps"] == 1 or not sc["readers"]:
         ok += [props.get("has_self_feedback") is True, props.get("feedback_signal") == "signal-M"]
@@ -304,7 +306,7 @@ def feedback_arg_sets():
             return t
 
     out = []
-    for n_readers, other, steps, gates in _it4.product((0, 1, 2), (False, True), (1, 2), (True, False)):
+    for n_readers, other, steps, gates, enable_ref in _it4.product((0, 1, 2), (False, True), (1, 2), (True, False), (True, False)):
         plan = LayoutPlan()
         for nid in ("arith_last", "arith_first", "m_write_gate", "m_hold_gate", "other_gate"):
             plan.create_and_add_placement(ir_node_id=nid, entity_type="arithmetic-combinator" if nid.startswith("arith") else "decider-combinator",
@@ -338,8 +340,8 @@ def feedback_arg_sets():
         module = MemoryModule("m", "signal-M")
         if gates:
             module.write_gate, module.hold_gate = plan.get_placement("m_write_gate"), plan.get_placement("m_hold_gate")
-        mb._scenario = {"readers": readers, "other_reader": other, "steps": steps}
-        op = IRMemWrite("m", SignalRef("signal-M", "arith_last"), 1)
+        mb._scenario = {"readers": readers, "other_reader": other, "steps": steps, "enable_ref": enable_ref}
+        op = IRMemWrite("m", SignalRef("signal-M", "arith_last"), SignalRef("signal-W", "enable_const") if enable_ref else 1)
         if not gates:
             # without gate placements the stale sink entries cannot be attributed: leave them out of the scenario
             g._sinks["arith_last"].remove("m_write_gate")
@@ -408,7 +410,7 @@ def self_feedback_arg_sets():
 
 
 # =================================================================================================
-# MemoryBuilder.cleanup_unused_gates: exactly the gates marked unused disappear — their placements, every wire that touches
+# MemoryBuilder.cleanup_unused_gates: exactly the gates marked unused (and the enable constant of a folded cell) disappear — their placements, every wire that touches
 # them and every sink entry naming them — and nothing else does (the gates of other cells, their wires and sinks stay).
 # Evaluated on the REAL method over an enumerated box (two cells x {no gate unused, write gate, hold gate, both}): bounded.
 # =================================================================================================
@@ -461,6 +463,15 @@ def cleanup_arg_sets():
             mod.write_gate_unused, mod.hold_gate_unused = wu, hu
             mb._modules[name] = mod
             removed += ([w] if wu else []) + ([h] if hu else [])
+            # the enable constant: kept while a gate reads it, removed with the gates of a cell folded into arithmetic feedback
+            en = f"{name}_enable"
+            plan.create_and_add_placement(ir_node_id=en, entity_type="constant-combinator", position=None, footprint=(1, 1), role="literal", debug_info={})
+            all_ids.append(en)
+            if wu and hu:
+                mod.unused_enable_id = en
+                removed.append(en)
+            plan.add_wire_connection(WireConnection(source_entity_id=en, sink_entity_id=w, signal_name="signal-W", wire_color="green"))
+            wires.append((en, w))
             for s, t in ((w, h), (h, h), (h, "consumer"), ("consumer", w)):
                 plan.add_wire_connection(WireConnection(source_entity_id=s, sink_entity_id=t, signal_name="signal-M", wire_color="red"))
                 wires.append((s, t))
